@@ -15,9 +15,10 @@ def main():
     ap.add_argument("--tier", default=os.environ.get("VERIF_TIER", "quick"))
     ap.add_argument("--replay")
     a = ap.parse_args()
-    tier = os.environ.get("VERIF_TIER") or a.tier
+    tier = a.tier        # an explicit --tier wins; VERIF_TIER is only the default
     if tier not in ("quick", "thorough"):
         tier = "quick"
+    os.environ["VERIF_TIER"] = tier
     seed = int(os.environ.get("VERIF_SEED", "1") or 1)
     pid = a.pid.upper()
     import shutil
